@@ -370,6 +370,52 @@ def corr_rotM(run, cases, rotors, preps):
     return bad
 
 
+def corr_evalM(run, cases, rotors, preps):
+    """the matrix route of Wigner.evaluate (the default strategy) from the source — generated `Wigner.sYlm` body + generated slice bounds and
+    contraction (left fold) — against the real call, numerically (np.matmul fixes no summation order).  cases: [(L, P, ellmin, s, ellMaxModes, weights)]"""
+    import spherical
+    import quaternionic
+    h = helpers()
+    lines, exp, meta = [], [], []
+    for (L, P, ellmin, s, eM, f) in cases:
+        w = spherical.Wigner(L, ellmin, mp_max=P)
+        modes = spherical.Modes(np.array(f, dtype=complex), spin_weight=s, ell_min=0, ell_max=eM)
+        fa = modes.ndarray
+        for lab, R in rotors:
+            p = preps.get(R)
+            if p is None:
+                continue
+            v = complex(w.evaluate(modes, quaternionic.array(R)))
+            za = p["za_rot"]
+            pw = np.complex128(p["z"][2]) ** abs(s)
+            lines.append(f"genevalM {L} {w.mp_max} {ellmin} {s} {eM} {' '.join(fbits(x) for x in R)} {fbits(za.real)} {fbits(za.imag)} {fbits(h['imsqrt'](za))} "
+                         f"{fbits(pw.real)} {fbits(pw.imag)} " + cx_tokens(fa))
+            exp.append(v)
+            scale = float(np.sum(np.abs(fa) * np.sqrt((2 * np.repeat(np.arange(eM + 1), 2 * np.arange(eM + 1) + 1) + 1) / (4 * np.pi))))
+            meta.append(({"L": L, "P": P, "ell_min": ellmin, "s": s, "ell_max_modes": eM, "R": R, "stratum": lab, "model": "generated"}, lab, scale))
+    if not lines:
+        return []
+    out = run.driver(lines)
+    if out is None:
+        run.corr_break("corr:evaluate-matrix-generated-kernel", "driver failed")
+        return [m for m, _, _ in meta]
+    bad = []
+    for line, o, e, (m, lab, scale) in zip(lines, out, exp, meta):
+        toks = parse_bits(o) if o not in ("raised", "bad-op") else None
+        ok = False
+        if toks is not None and len(toks) == 2:
+            got = complex(tofloat(toks[0]), tofloat(toks[1]))
+            dev = abs(got - e)
+            ok = dev <= 64 * (m["ell_max_modes"] + 2) * 2.0 ** -52 * max(scale, 1e-300)
+            m = {**m, "abs_dev": dev}
+        run.corr_case("evaluate-matrix-generated-kernel", line[:300], lab, m if ok else None)
+        if not ok:
+            bad.append(m)
+            if len(bad) <= 3:
+                run.corr_break("corr:evaluate-matrix-generated-kernel", {"case": m})
+    return bad
+
+
 def corr_w3j(run, cases, poison=3.5):
     """cases: [(j2max, j3max, j2, j3, m2, m3)] -> compares Wigner3jCalculator(j2max,j3max).calculate(j2,j3,m2,m3)"""
     import spherical
